@@ -42,6 +42,29 @@ def shard(spec) -> Acc:
     return acc
 
 
+def line_variants(specs, select, bound=1, budget=20000):
+    """Line-granularity variants (a scheduling point before every source line of
+    cobald/daemon/runners/*.py, in every thread) of the specs that ``select`` picks"""
+    import copy
+    import os
+
+    from vlib.core import REPO
+
+    out = []
+    for spec in specs:
+        if not select(spec["params"]):
+            continue
+        variant = copy.deepcopy(spec)
+        variant["params"] = dict(variant["params"], _granularity="line")
+        variant["bound"] = bound
+        variant["budget"] = budget
+        variant["opts"].update(
+            line_points=True, max_points=60000,
+            line_package=os.path.join(REPO, "src", "cobald", "daemon", "runners"))
+        out.append(variant)
+    return out
+
+
 def finish(ctx, specs, rule, bounds, assumptions=()):
     counters = ctx.acc.counters
     # the maximum is not additive
